@@ -4,3 +4,4 @@ import OFModel.Zmq.Receiver
 import OFModel.Zmq.Sender
 import OFModel.Codec
 import OFModel.Redact
+import OFModel.Frame
